@@ -189,6 +189,38 @@ fn check_name(s: &str, obs: &mut Obs) -> CaseResult {
             Err(e) => return Err(fail("user(with unknown members)", format!("rejected {:?}", e))),
         }
     }
+    // 7. two names in one entity that share everything up to the cut but differ behind it: the
+    // other name has the same length and the same first `cut` bytes, with ASCII where this one has
+    // the character that straddles byte 64. Each must be cut on its own merits.
+    if moved {
+        let width = s[cut..].chars().next().map(|c| c.len_utf8()).unwrap_or(1);
+        let mut other = String::with_capacity(s.len());
+        other.push_str(&s[..cut]);
+        for _ in 0..width {
+            other.push('x');
+        }
+        other.push_str(&s[cut + width..]);
+        let ocut = spec_floor(&other, 64);
+        for (first, second) in [("name", "displayName"), ("displayName", "name")] {
+            let ent = Value::Map(vec![ks("id", Value::Bytes(vec![4, 5])), ks(first, text(s)), ks(second, text(&other))]);
+            let eb = refcbor::encode(&ent);
+            obs.sub("sibling-names-sharing-a-prefix", &[b"sib", &eb]);
+            match cbor_deserialize::<PublicKeyCredentialUserEntity>(&eb) {
+                Ok(u) => {
+                    let (a, b) = if first == "name" { (u.name.as_deref(), u.display_name.as_deref()) } else { (u.display_name.as_deref(), u.name.as_deref()) };
+                    verify("user(first of two names sharing a prefix)", a, true)?;
+                    if b != Some(&other[..ocut]) {
+                        return Err(Fail::new(
+                            format!("C13:name:sibling-with-shared-prefix:{}", class),
+                            format!("entity with two {}-byte names sharing their first {} bytes: the second decoded to {:?} ({} bytes), expected its own {}-byte prefix", s.len(), cut, b, b.map(|x| x.len()).unwrap_or(0), ocut),
+                            json!({"entity_hex": hex(&eb)}),
+                        ));
+                    }
+                }
+                Err(e) => return Err(fail("user(two names sharing a prefix)", format!("rejected {:?}", e))),
+            }
+        }
+    }
     if moved {
         obs.nontrivial(&[s.as_bytes()]);
     }
@@ -466,7 +498,7 @@ pub fn gens() -> Vec<Gen> {
     vec![G_STRADDLE, G_RANDOM, G_ICON, G_ILL, G_NAME_C, G_ICON_C, G_SCALAR]
 }
 
-pub const RULE: &str = "(a) enumerated: strings pad || w1..w8 || tail with pad = 56..64 ASCII bytes and every arrangement of character widths 1-4 in the 8 characters straddling byte 64 (thorough: all 4^8 patterns x 9 alignments; quick: all 4^5 patterns of the first five straddling characters x 9 alignments, remaining three random), several scalars per width incl. U+0000, U+D7FF, U+FFFF, U+10FFFF; (b) proptest: random Unicode text of 0..300 bytes; (c) icons of every length 0..300 (mixed-width text) as user icon, rp icon and legacy url; (d) ill-formed UTF-8: a valid text with one byte replaced by 0x80/0xC0/0xE0/0xF8/0xFF at a random position, truncated multi-byte sequences, surrogates, overlongs, cut characters, in each of rp.name, user.name, user.displayName, user.icon, rp.icon. Every string goes through the stand-alone user and rp entities, a MakeCredential request and a CredentialManagement updateUserInformation request, and additionally through a user entity (stand-alone and inside MakeCredential) whose members are encoded in one of the six orders of id / name / displayName (if the decoder accepts the non-canonical order, the result must be the same), and through a user entity that also carries unknown members: a near-miss spelling of a known key (display_name, DisplayName, names ...) and, one time in five, 16 further unknown members. Oracle: names equal the prefix ending at the largest char boundary <= 64 computed with str::is_char_boundary, valid UTF-8, <= 64 bytes; icon <= 128 kept verbatim, longer reported absent with the request accepted; rp icon/url of any length accepted; text that std::str::from_utf8 rejects must be rejected (InvalidCbor). Non-trivial: a name longer than 64 bytes whose byte 64 is not a boundary (the cut had to move), an icon of >= 127 bytes, or an actually ill-formed text; evaluations count decode paths.";
+pub const RULE: &str = "(a) enumerated: strings pad || w1..w8 || tail with pad = 56..64 ASCII bytes and every arrangement of character widths 1-4 in the 8 characters straddling byte 64 (thorough: all 4^8 patterns x 9 alignments; quick: all 4^5 patterns of the first five straddling characters x 9 alignments, remaining three random), several scalars per width incl. U+0000, U+D7FF, U+FFFF, U+10FFFF; (b) proptest: random Unicode text of 0..300 bytes; (c) icons of every length 0..300 (mixed-width text) as user icon, rp icon and legacy url; (d) ill-formed UTF-8: a valid text with one byte replaced by 0x80/0xC0/0xE0/0xF8/0xFF at a random position, truncated multi-byte sequences, surrogates, overlongs, cut characters, in each of rp.name, user.name, user.displayName, user.icon, rp.icon. Every string goes through the stand-alone user and rp entities, a MakeCredential request and a CredentialManagement updateUserInformation request, and additionally through a user entity (stand-alone and inside MakeCredential) whose members are encoded in one of the six orders of id / name / displayName (if the decoder accepts the non-canonical order, the result must be the same), and through a user entity that also carries unknown members: a near-miss spelling of a known key (display_name, DisplayName, names ...) and, one time in five, 16 further unknown members; and, whenever the cut had to move, through an entity whose other name has the same length and the same kept prefix but differs behind the cut. Oracle: names equal the prefix ending at the largest char boundary <= 64 computed with str::is_char_boundary, valid UTF-8, <= 64 bytes; icon <= 128 kept verbatim, longer reported absent with the request accepted; rp icon/url of any length accepted; text that std::str::from_utf8 rejects must be rejected (InvalidCbor). Non-trivial: a name longer than 64 bytes whose byte 64 is not a boundary (the cut had to move), an icon of >= 127 bytes, or an actually ill-formed text; evaluations count decode paths.";
 pub const ASSUMPTIONS: &[&str] = &["str::is_char_boundary / std::str::from_utf8 are the reference for boundaries and well-formedness", "debug assertions make a failed unwrap_unchecked abort"];
 
 pub fn run(ctx: &mut Ctx) {
